@@ -92,12 +92,28 @@ def run(ctx):
             d0 = (d0_mode, 3 if prior == 'existing' else 0, 4 if prior == 'existing' else 0)
             cfgt = fileproj.cfg_tokens(ownership=flags['ownership'], no_perms=flags['no_perms'], no_timestamps=flags['no_timestamps'], fsync=flags['fsync'])
             proj = fileproj.project(r.trace, root + '/D/f')
-            reqs = [f'finalise {cfgt} | {mode}:{uid}:{gid}:{mtime} {d0[0]}:{d0[1]}:{d0[2]}:0',
+            # (the attribute maps travel too: source listing order as the kernel gives it, destination = what was there before)
+            hx = lambda b: b.hex() if b else '-'
+            xf = lambda d_: ','.join(f'{hx(k.encode())}={hx(v)}' for k, v in d_.items()) or '-'
+            sx = {k: xattr[k] for k in os.listxattr(root + '/S/f')}
+            dx0 = dict(pxattr) if prior == 'existing' else {}
+            reqs = [f'finalise {cfgt} | {mode}:{uid}:{gid}:{mtime}:{xf(sx)} {d0[0]}:{d0[1]}:{d0[2]}:0:{xf(dx0)}',
                     f"monitor {cfgt} | {size} {' '.join(t for t, _ in proj)}"]
             m = core.ask(core.MODEL, reqs)
             ctx.cov['traces_validated_against_impl'] += 2
             mm = m[0].split()[1].split(':') if m[0].startswith('ok') else None
             obs = [str(got['mode']), str(got['uid']), str(got['gid']), str(got['mtime'] if not flags['no_timestamps'] else 0)]
+            # the whole attribute map, as a set of pairs (the kernel's listing order is not the model's list order)
+            if mm is not None and len(mm) == 5:
+                mx = sorted(mm.pop().split(',')) if mm[-1] != '-' else (mm.pop() and [])
+                ox = sorted(f'{hx(k.encode())}={hx(v)}' for k, v in got['xattr'].items())
+                ctx.count('xattr_map.compared'); ctx.count('xattr_map.dest_only_key' if set(dx0) - set(sx) else 'xattr_map.no_dest_only_key')
+                if flags['no_perms'] and dx0: ctx.count('xattr_map.no_perms_with_prior_attrs')
+                if mx != ox:
+                    ctx.cov['disagreements_checked'] += 1
+                    ctx.violation(f'case-{i}-xattrs.json', dict(argv=argv, request=reqs[0], model=m[0], observed=ox, source_xattrs={k: v.hex() for k, v in sx.items()}, prior_xattrs={k: v.hex() for k, v in dx0.items()},
+                                                                correspondence='user xattrs of the destination after the run vs Xcp.finalise', theorems=['Xcp.C10.xattrs_exact', 'Xcp.C10.no_perms_keeps_xattrs']),
+                                  f'C10: model/implementation disagree on the destination\'s extended attributes: model {mx} observed {ox}', no_input=True)
             if mm is None or mm != obs:
                 ctx.cov['disagreements_checked'] += 1
                 ctx.violation(f'case-{i}-corr.json', dict(argv=argv, request=reqs[0], model=m[0], observed=':'.join(obs), correspondence='finalise_copy end state vs Xcp.finalise (linuxChownFx)',
